@@ -6,6 +6,7 @@ CONSTANTS
   Prods <- KeyProds
   KISet <- KICross
   EnvWhereSet <- EnvWheres
+  SibSeqSet <- SibCover
   Deviations = {}
   EmitMin = 2
   EmitFrom = 9
